@@ -42,8 +42,14 @@ type chanScript struct {
 	readAllPm int
 	napPm     int
 	expected  []byte
-	offsets   []int // start offset in expected of every data step's bytes (ids ascending)
-	barrier   []int // barrier[i]: first step j >= i that fails or holds (len(steps) if none)
+	offsets   []int    // start offset in expected of every data step's bytes (ids ascending)
+	barrier   []int    // barrier[i]: first step j >= i that fails or holds (len(steps) if none)
+	dataPre   []int    // dataPre[i]: number of data steps among steps[0:i]
+	elems     [][]byte // clean bytes of the data steps, in order (one queue element each)
+	// elemNil[k]: element k is a read made only of escape sequences. The unchanged read loop enqueues a
+	// NIL chunk for it (regexp ReplaceAll of everything yields nil), which Dequeue/Read hand out as nil:
+	// the caller sees "nothing" although one element was taken.
+	elemNil []bool
 }
 
 // genChanScript: every choice derives from seed (spelled out per batch in the descriptor: seed +
@@ -93,10 +99,15 @@ func genChanScript(seed int64, maxSteps, errPm, reusePm int) chanScript {
 			sc.barrier[i] = sc.barrier[i+1]
 		}
 	}
-	for _, st := range sc.steps {
+	sc.dataPre = make([]int, len(sc.steps)+1)
+	for i, st := range sc.steps {
+		sc.dataPre[i+1] = sc.dataPre[i]
 		if !st.err {
+			sc.dataPre[i+1]++
 			sc.offsets = append(sc.offsets, len(sc.expected))
 			sc.expected = append(sc.expected, st.clean...)
+			sc.elems = append(sc.elems, st.clean)
+			sc.elemNil = append(sc.elemNil, st.style == "only-esc")
 		}
 	}
 	return sc
@@ -108,14 +119,26 @@ func genDataStep(r *xrng, id int) chanStep {
 	x := r.pm()
 	withCR, withEsc := false, false
 	switch {
-	case x < 500:
+	case x < 440:
 		st.style = "plain"
-	case x < 750:
+	case x < 660:
 		st.style, withCR = "cr", true
-	case x < 900:
+	case x < 800:
 		st.style, withEsc = "esc", true
-	default:
+	case x < 880:
 		st.style, withCR, withEsc = "cr+esc", true, true
+	case x < 940:
+		// a read made only of carriage returns: the read loop enqueues an empty chunk for it
+		st.style, st.clean = "only-cr", []byte{}
+		st.raw = bytes.Repeat([]byte("\r"), 1+int(r.next()%3))
+		return st
+	default:
+		// a read made only of escape sequences: also an empty chunk
+		st.style, st.clean = "only-esc", []byte{}
+		for k := 1 + int(r.next()%2); k > 0; k-- {
+			st.raw = append(st.raw, chanEsc[r.next()%uint64(len(chanEsc))]...)
+		}
+		return st
 	}
 	raw := make([]byte, 0, len(clean)+24)
 	for i, c := range clean {
@@ -187,10 +210,23 @@ type chanOutcome struct {
 	nontriv bool
 }
 
-func runChanSession(seed int64, d Desc) chanOutcome {
+func runChanSession(seed int64, d Desc) (out chanOutcome) {
 	sc := genChanScript(seed, d.MaxOps, d.ErrPm, d.ReusePm)
 	obs := map[string]int64{"chan_sessions": 1}
-	out := chanOutcome{verdict: mon.Held, obs: obs}
+	out = chanOutcome{verdict: mon.Held, obs: obs}
+	var panicWitness func() string
+	defer func() {
+		if x := recover(); x != nil {
+			buf := make([]byte, 16384)
+			n := runtime.Stack(buf, false)
+			w := ""
+			if panicWitness != nil {
+				w = panicWitness()
+			}
+			out = chanOutcome{verdict: mon.Violated, key: "c20/panic:" + firstLibFrame(string(buf[:n])), obs: obs, nontriv: true,
+				detail: fmt.Sprintf("consumer goroutine: panic: %v\n%s\n%s", x, w, buf[:n])}
+		}
+	}()
 	for _, st := range sc.steps {
 		if st.err {
 			obs["chan_transport_reads_failing"]++
@@ -280,6 +316,19 @@ func runChanSession(seed int64, d Desc) chanOutcome {
 		}
 		return "corrupt"
 	}
+	panicWitness = func() string {
+		return fmt.Sprintf("last consumer calls:\n%stransport script:\n%s", joinLines(tr2.list()), script())
+	}
+	// sessions whose consumer only calls Read know how many elements they took: exactly one per
+	// non-nil return. There the element itself (incl. empty chunks) and the depth are checked after
+	// every call.
+	elemLevel := sc.readAllPm == 0
+	if elemLevel {
+		obs["chan_sessions_checked_per_element_and_depth"]++
+	}
+	// the element at the head is eLo..eHi: elements in [eLo, eHi) are nil chunks (reads of only escape
+	// sequences) that a Read returning nothing may have taken
+	eLo, eHi := 0, 0
 	deadline := time.Now().Add(60 * time.Second)
 	n := int64(len(sc.steps))
 	for {
@@ -325,6 +374,19 @@ func runChanSession(seed int64, d Desc) chanOutcome {
 		case b != nil:
 			tr2.add(rec{op: name, b: b})
 			obs["chan_bytes_obtained"] += int64(len(b))
+			if len(b) == 0 {
+				obs["chan_calls_returning_empty_chunk"]++
+			}
+			if elemLevel {
+				if eHi >= len(sc.elems) || sc.elemNil[eHi] || !bytes.Equal(b, sc.elems[eHi]) {
+					var want []byte
+					if eHi < len(sc.elems) {
+						want = sc.elems[eHi]
+					}
+					return bad("c20/chan:read-not-exactly-next-chunk", "Read() returned %s, but the element at the head of the queue (chunk %d of the transport's data reads) is %s (one transport read = one chunk, a read made only of CR / escape sequences is an empty chunk; Read takes exactly one)", clipB(b), eHi, clipB(want))
+				}
+				eLo, eHi = eHi+1, eHi+1
+			}
 			if pos+len(b) > len(sc.expected) || !bytes.Equal(b, sc.expected[pos:pos+len(b)]) {
 				end := pos + len(b)
 				if end > len(sc.expected) {
@@ -343,12 +405,43 @@ func runChanSession(seed int64, d Desc) chanOutcome {
 		default:
 			tr2.add(rec{op: name})
 			obs["chan_calls_returning_nothing"]++
-			if scriptDone {
+			if elemLevel && eHi < len(sc.elems) && sc.elemNil[eHi] {
+				eHi++ // the nil chunk of an escape-only read may just have been taken
+			}
+			// "nothing" is not "empty": the nil chunk of an escape-only read comes out as nothing too. The
+			// transport is idle and only this goroutine removes, so the depth says what is left.
+			if scriptDone && c.Q.GetDepth() == 0 {
 				if pos < len(sc.expected) {
 					return bad("c20/chan:bytes-lost", "the transport has delivered everything (%d bytes) and is idle, %s() reports nothing to read, but only %d bytes were obtained; missing from %s",
 						len(sc.expected), name, pos, clipB(sc.expected[pos:]))
 				}
 				goto finished
+			}
+		}
+		if elemLevel {
+			// depth against content: the read loop has enqueued every data read that came before the
+			// last transport read begun, and at most those begun
+			e0 := tr.entered.Load()
+			dep := c.Q.GetDepth()
+			e1 := tr.entered.Load()
+			if e0 > n {
+				e0 = n
+			}
+			if e1 > n {
+				e1 = n
+			}
+			lo := 0
+			if e0 >= 1 {
+				lo = sc.dataPre[e0-1] - eHi
+			}
+			if lo < 0 {
+				lo = 0
+			}
+			hi := sc.dataPre[e1] - eLo
+			obs["chan_depth_checks"]++
+			if dep < lo || dep > hi {
+				return bad("c20/chan:depth", "after this call the queue depth is %d, but it holds between %d and %d chunks (transport data reads enqueued: %d..%d, chunks taken by Read: %d..%d)",
+					dep, lo, hi, lo+eHi, hi+eLo, eLo, eHi)
 			}
 		}
 		// pacing: let a backlog build up, but never wait for a transport read that itself waits for us
